@@ -1,7 +1,7 @@
 #!/usr/bin/env python3
 """Markdown tables of the seeding experiments from /verif/seeded/*/meta.json."""
 import glob, json, os
-rows = {1: [], 2: [], 3: [], 4: []}
+rows = {1: [], 2: [], 3: [], 4: [], 5: []}
 for d in sorted(glob.glob('/verif/seeded/*')):
     try: m = json.load(open(d + '/meta.json'))
     except Exception: continue
@@ -11,7 +11,7 @@ for d in sorted(glob.glob('/verif/seeded/*')):
         r = runs[-1]
         rp = r.get('replay') or {}
         nfi = any('no-failing' in l for l in r.get('lines', []))
-        if r['exit'] == 0: res = 'exit 0 (unaffected)' if m.get('round') == 3 else 'exit 0 (missed)'
+        if r['exit'] == 0: res = 'exit 0 (unaffected)' if int(m.get('round', 1)) in (3, 5) else 'exit 0 (missed)'
         elif rp.get('kind') == 'propfail': res = 'PROPFAIL `' + str(rp.get('input'))[:48].replace('|', '/') + '`'
         elif nfi: res = 'no-failing-input-found (' + str(rp.get('kind')) + ')'
         else: res = 'exit %s' % r['exit']
@@ -20,8 +20,8 @@ for d in sorted(glob.glob('/verif/seeded/*')):
     needs = (m.get('needs') or m.get('observable_difference') or '')
     if isinstance(needs, (dict, list)): needs = json.dumps(needs)
     needs = needs[:90].replace('\n', ' ').replace('|', '/')
-    rows[m.get('round', 1)].append(f"| {name} | {summ} | {needs} | {'; '.join(cells)} |")
-for rnd in (1, 2, 3, 4):
+    rows[int(m.get('round', 1))].append(f"| {name} | {summ} | {needs} | {'; '.join(cells)} |")
+for rnd in (1, 2, 3, 4, 5):
     if not rows[rnd]: continue
     print(f"\n**Round {rnd}** ({len(rows[rnd])} changes)\n")
     print("| seed | change | needs / observable difference | checks |\n|---|---|---|---|")
